@@ -222,7 +222,7 @@ func c08(run *ev.Run) int {
 		c08Isolation(run)
 	}
 	if !run.Replaying() || strings.Contains(os.Getenv("VERIF_REPLAY_KEY"), "/paired/") {
-		c08Paired(run)
+		c08Paired(run, "c08")
 	}
 	if !run.Replaying() || strings.Contains(os.Getenv("VERIF_REPLAY_KEY"), "/peer-terminator/") {
 		c08PeerTerminators(run)
@@ -711,7 +711,7 @@ func c08Isolation(run *ev.Run) {
 // left the pool with two references to one object, both valid calls get it and
 // the object's ownership flag reports it - deterministically, not by waiting
 // for corrupted bytes to show up.
-func c08Paired(run *ev.Run) {
+func c08Paired(run *ev.Run, prefix string) {
 	const algo = "Zz-Xor"
 	stats := &svc.AlgoStats{Pair: 1}
 	nd, nc := svc.Algo(algo, stats)
@@ -751,7 +751,7 @@ func c08Paired(run *ev.Run) {
 	var idc uint64
 	for _, p := range svc.Protocols {
 		for _, side := range []string{"handler", "client"} {
-			key := fmt.Sprintf("c08/paired/%s/%s", side, p)
+			key := fmt.Sprintf("%s/paired/%s/%s", prefix, side, p)
 			if !run.Want(key) {
 				continue
 			}
@@ -829,7 +829,7 @@ func c08Paired(run *ev.Run) {
 		}
 	}
 	run.Count("paired.rendezvous", atomic.LoadInt64(&stats.Paired))
-	serverPanicCheck(run, srv, "c08/paired")
+	serverPanicCheck(run, srv, prefix+"/paired")
 }
 
 // c08PeerTerminators: "both sides can decode" also covers the last envelope of
